@@ -14,6 +14,9 @@ import (
 // 使用 HMAC-SM3(secret, clientAddr || clientParams)
 func generateCookie(secret []byte, clientAddr string, clientParams []byte) []byte {
 	h := hmac.New(sm3.New, secret)
+	// 地址前加长度前缀：否则 (地址, 参数) 的不同切分会得到相同的 MAC 输入，
+	// 例如 ("10.0.0.1:8", "0"+P) 与 ("10.0.0.1:80", P)，一个地址的 cookie 可用于另一个地址
+	h.Write([]byte{byte(len(clientAddr) >> 8), byte(len(clientAddr))})
 	h.Write([]byte(clientAddr))
 	h.Write(clientParams)
 	return h.Sum(nil)
